@@ -281,7 +281,7 @@ func (db *Database) Ensure(sch *schema.Schema) {
 			panic(e)
 		}
 	}()
-	ovs := db.buildIndexes(sch.Table, sch.Columns, newIdxs)
+	bts := db.buildIndexes(sch.Table, sch.Columns, newIdxs)
 	if verif.On {
 		verif.Gate("alter.built", sch.Table)
 	}
@@ -289,11 +289,10 @@ func (db *Database) Ensure(sch *schema.Schema) {
 		db.UpdateState(func(state *DbState) {
 			_, meta := state.Meta.Ensure(sch, db.Store) // final run
 			// now meta and table info are copies
-			if ovs != nil {
+			if bts != nil {
 				// add newly created indexes
 				ti := meta.GetRoInfo(sch.Table) // not actually read-only
-				i := len(ti.Indexes) - len(ovs)
-				copy(ti.Indexes[i:], ovs)
+				addBuiltIndexes(ti, bts)
 			}
 			state.Meta = meta
 		})
@@ -358,7 +357,7 @@ func (db *Database) RunExclusive(table string, fn func()) {
 // buildIndexes creates the new btrees & overlays when there is existing data.
 // It is used by Ensure and AlterCreate.
 func (db *Database) buildIndexes(table string,
-	newCols []string, newIdxs []schema.Index) []*index.Overlay {
+	newCols []string, newIdxs []schema.Index) []*btree.T {
 	if len(newIdxs) == 0 {
 		return nil
 	}
@@ -381,7 +380,6 @@ func (db *Database) buildIndexes(table string,
 	nold := len(ts.Indexes)
 	ts.Indexes = append(ts.Indexes, newIdxs...)
 	newIdxs = ts.SetupNewIndexes(nold)
-	nlayers := ti.Indexes[0].Nlayers()
 	list := sortlist.NewSorting(func(x uint64) bool { return x == 0 },
 		MakeLess(db.Store, &newIdxs[0].Ixspec))
 	iter := rt.IndexIter(table, 0) // read first index (preexisting)
@@ -390,7 +388,7 @@ func (db *Database) buildIndexes(table string,
 		list.Add(off)
 	}
 	list.Finish()
-	ovs := make([]*index.Overlay, len(newIdxs))
+	bts := make([]*btree.T, len(newIdxs))
 	for i := range newIdxs {
 		ix := &newIdxs[i]
 		fk := &ix.Fk
@@ -419,10 +417,21 @@ func (db *Database) buildIndexes(table string,
 				}
 			}
 		}
-		bt := bldr.Finish()
-		ovs[i] = index.OverlayForN(bt, nlayers)
+		bts[i] = bldr.Finish()
 	}
-	return ovs
+	return bts
+}
+
+// addBuiltIndexes adds the newly built indexes to the table info.
+// The overlays must have the same number of layers as the existing indexes
+// in the state they are added to, which may have fewer than when the
+// btrees were built because pending merges can complete in between.
+func addBuiltIndexes(ti *meta.Info, bts []*btree.T) {
+	i := len(ti.Indexes) - len(bts)
+	nlayers := ti.Indexes[0].Nlayers()
+	for j, bt := range bts {
+		ti.Indexes[i+j] = index.OverlayForN(bt, nlayers)
+	}
 }
 
 // MakeLess handles _lower! but not rules.
@@ -501,7 +510,7 @@ func (db *Database) AlterCreate(sch *schema.Schema) {
 	}()
 	// buildIndexes is potentially slow (if there's a lot of data)
 	// so we don't want to do it inside UpdateState
-	ovs := db.buildIndexes(sch.Table, sch.Columns, sch.Indexes)
+	bts := db.buildIndexes(sch.Table, sch.Columns, sch.Indexes)
 	if verif.On {
 		verif.Gate("alter.built", sch.Table)
 	}
@@ -509,11 +518,10 @@ func (db *Database) AlterCreate(sch *schema.Schema) {
 		db.UpdateState(func(state *DbState) {
 			meta := state.Meta.AlterCreate(sch, db.Store)
 			// now meta and table info are copies
-			if ovs != nil {
+			if bts != nil {
 				// add newly created indexes
 				ti := meta.GetRoInfo(sch.Table) // not really read-only
-				i := len(ti.Indexes) - len(ovs)
-				copy(ti.Indexes[i:], ovs)
+				addBuiltIndexes(ti, bts)
 			}
 			state.Meta = meta
 		})
